@@ -72,10 +72,10 @@ end
 value up to `norm` (nil slices of non-nullable fields come back empty) and consumes exactly the encoding.
 One theorem for all message types and versions; it holds for the decoder with and without the length
 bounds (`cfg`). -/
-theorem decode_encode (cfg : Cfg) (t : Ty) (v : Val) (hwf : t.wf = true) (hwt : wt t v = true)
+theorem decode_encode (cfg : Cfg) (hrec : cfg.recs = none) (t : Ty) (v : Val) (hwf : t.wf = true) (hwt : wt t v = true)
     (r : Bytes) (rem : Nat) (hrem : (encode t v).length ≤ rem) :
     decode cfg t ⟨encode t v ++ r, rem⟩ = .ok (norm t v) ⟨r, rem - (encode t v).length⟩ :=
-  rt_all cfg t hwf v hwt r rem hrem
+  rt_all cfg t hrec hwf v hwt r rem hrem
 
 /-- the 4-byte size prefix of a response frame is the number of bytes that follow -/
 theorem frame_size_response (flex : Bool) (corr : Int) (t : Ty) (v : Val)
@@ -122,7 +122,7 @@ theorem be_eq_encInt (k n : Nat) (h : n < 2 ^ (8 * k)) : be k n = encInt k (n : 
 
 /-- **A framed response decodes to what was encoded and exactly one frame is consumed**: `ReadResponse` on
 `frame ++ rest` returns the correlation id and the (normalised) value and leaves exactly `rest`. -/
-theorem frame_decode_consumes_one (cfg : Cfg) (flex : Bool) (corr : Int) (t : Ty) (v : Val) (rest : Bytes)
+theorem frame_decode_consumes_one (cfg : Cfg) (hrec : cfg.recs = none) (flex : Bool) (corr : Int) (t : Ty) (v : Val) (rest : Bytes)
     (hwf : t.wf = true) (hwt : wt t v = true) (hc : inRange 32 corr = true)
     (hsz : (frameResponse flex corr t v).length - 4 < 2 ^ 31) :
     readResponse cfg flex t (frameResponse flex corr t v ++ rest) = .ok (corr, norm t v) ⟨rest, 0⟩ := by
@@ -141,7 +141,7 @@ theorem frame_decode_consumes_one (cfg : Cfg) (flex : Bool) (corr : Int) (t : Ty
     simp only [Res.bind, h0, if_false, Int.toNat_natCast]
     rw [readInt_encInt 4 corr _ _ (by decide) hc' (by omega)]
     simp only []
-    rw [decode_encode cfg t v hwf hwt rest _ (by omega)]
+    rw [decode_encode cfg hrec t v hwf hwt rest _ (by omega)]
     simp [discardAll]
   · simp only [frameResponse, if_true, List.length_append, be_length, encInt_length, hu0] at hsz
     simp only [readResponse, frameResponse, if_true, List.append_assoc, List.length_append, encInt_length, hu0]
@@ -157,7 +157,7 @@ theorem frame_decode_consumes_one (cfg : Cfg) (flex : Bool) (corr : Int) (t : Ty
     have hl : lenOfU cfg 0 = 0 := lenOfU_small cfg 0 (by decide)
     simp only [tagCount, hl, hu0]
     simp only [Int.lt_irrefl, if_false, Int.toNat_zero, Nat.not_lt_zero, and_false, skipHeaderTags]
-    rw [decode_encode cfg t v hwf hwt rest _ (by omega)]
+    rw [decode_encode cfg hrec t v hwf hwt rest _ (by omega)]
     simp [discardAll]
 
 
@@ -212,7 +212,7 @@ theorem taggedLoop_skips (cfg : Cfg) (lookup : Int → Option (Nat × (Dec → R
 /-- **skip_unknown_tags.**  A flexible struct whose tag buffer carries any number of tagged fields with ids the
 schema does not declare (as sent by a newer broker) decodes to exactly the value it decodes to without them,
 and consumes all of them. -/
-theorem skip_unknown_tags (cfg : Cfg) (fs : List Ty) (ids : List Int) (ts : List Ty) (vs tvs : List Val)
+theorem skip_unknown_tags (cfg : Cfg) (hrec : cfg.recs = none) (fs : List Ty) (ids : List Int) (ts : List Ty) (vs tvs : List Val)
     (es : List (Nat × Bytes)) (r : Bytes) (rem : Nat)
     (hwf : (Ty.struct true fs ids ts).wf = true) (hwt : wt (.struct true fs ids ts) (.struct vs tvs) = true)
     (hes : ∀ e ∈ es, e.1 < 2 ^ 64 ∧ e.2.length < 2 ^ 31 ∧ ∀ i ∈ ids, i ≠ toI64 e.1)
@@ -226,7 +226,7 @@ theorem skip_unknown_tags (cfg : Cfg) (fs : List Ty) (ids : List Int) (ts : List
   simp only [wt, Bool.and_eq_true] at hwt
   simp only [norm, normFields_markers ts tvs hmark hwt.2]
   simp only [decode, if_true]
-  rw [rt_fields cfg fs (rt_list cfg fs) hwfl hreg vs hwt.1 _ rem (by omega)]
+  rw [rt_fields cfg hrec fs (rt_list cfg fs) hwfl hreg vs hwt.1 _ rem (by omega)]
   simp only [Res.bind]
   rw [readUvarint_uvarint es.length _ _ (by omega) (by omega)]
   have hge := encExtras_length_ge es
@@ -301,7 +301,7 @@ def TaggedOk (cfg : Cfg) : List Int → List Ty → List Val → Prop
       TaggedOk cfg is ts vs
   | _, _, _ => False
 
-theorem taggedLoop_known (cfg : Cfg) (ids : List Int) (ts : List Ty) :
+theorem taggedLoop_known (cfg : Cfg) (hrec : cfg.recs = none) (ids : List Int) (ts : List Ty) :
     ∀ (sufI : List Int) (sufT : List Ty) (sufV : List Val) (preI : List Int) (preT : List Ty) (preV : List Val),
       ids = preI ++ sufI → ts = preT ++ sufT → preI.length = preT.length → wtFields preT preV = true →
       ids.Nodup → TaggedOk cfg sufI sufT sufV →
@@ -331,11 +331,11 @@ theorem taggedLoop_known (cfg : Cfg) (ids : List Int) (ts : List Ty) :
     simp only [Res.bind]
     rw [readUvarint_uvarint (encode t v).length _ _ (by omega) (by omega)]
     simp only [toI64_toU64 i h0 h1, hlook, Nat.zero_add]
-    rw [hrt hwf v hwt _ _ (by omega)]
+    rw [hrt hrec hwf v hwt _ _ (by omega)]
     simp only []
     have hlen' : (normFields preT preV).length = preI.length := by rw [normFields_length preT preV hpre, hl]
     rw [← hlen', set_append_mid]
-    have ih := taggedLoop_known cfg (preI ++ i :: sufI) (preT ++ t :: sufT) sufI sufT sufV (preI ++ [i]) (preT ++ [t]) (preV ++ [v])
+    have ih := taggedLoop_known cfg hrec (preI ++ i :: sufI) (preT ++ t :: sufT) sufI sufT sufV (preI ++ [i]) (preT ++ [t]) (preV ++ [v])
       (by simp) (by simp) (by simp [hl]) (wtFields_snoc preT preV t v hpre hwt) hnd hrest r
     rw [normFields_snoc preT preV t v hpre] at ih
     simp only [List.append_assoc, List.singleton_append] at ih
@@ -366,7 +366,7 @@ theorem countTagged_le_enc (cfg : Cfg) : ∀ (ids : List Int) (ts : List Ty) (tv
 /-- **Round trip of a flexible struct with id-tagged fields** (`kafka:"…,tag=N"`; the pinned tree declares none,
 the codec supports them): regular fields as in `decode_encode`, every tagged field written as (id, size, payload)
 in declaration order and read back through the tag map, whatever the order of distinct ids. -/
-theorem decode_encode_tagged (cfg : Cfg) (fs : List Ty) (ids : List Int) (ts : List Ty) (vs tvs : List Val)
+theorem decode_encode_tagged (cfg : Cfg) (hrec : cfg.recs = none) (fs : List Ty) (ids : List Int) (ts : List Ty) (vs tvs : List Val)
     (r : Bytes) (rem : Nat)
     (hwfl : wfList fs = true) (hreg : fs.all regularOk = true) (hfs : wtFields fs vs = true)
     (hnd : ids.Nodup) (hok : TaggedOk cfg ids ts tvs) (hn : (encodeTagged ids ts tvs).length < 2 ^ 31)
@@ -377,7 +377,7 @@ theorem decode_encode_tagged (cfg : Cfg) (fs : List Ty) (ids : List Int) (ts : L
   have hc := countTagged_le_enc cfg ids ts tvs hok
   simp only [encode, if_true, List.length_append] at hrem ⊢
   simp only [decode, if_true, List.append_assoc]
-  rw [rt_fields cfg fs (rt_list cfg fs) hwfl hreg vs hfs _ rem (by omega)]
+  rw [rt_fields cfg hrec fs (rt_list cfg fs) hwfl hreg vs hfs _ rem (by omega)]
   simp only [Res.bind]
   rw [readUvarint_uvarint (countTagged ts) _ _ (by omega) (by omega)]
   have hl : lenOfU cfg (countTagged ts) = countTagged ts := lenOfU_small cfg _ (by omega)
@@ -385,7 +385,7 @@ theorem decode_encode_tagged (cfg : Cfg) (fs : List Ty) (ids : List Int) (ts : L
   have h1 : ¬ (cfg.bounded = true ∧ countTagged ts > rem - (encodeFields fs vs).length - (uvarint (countTagged ts)).length) := by
     intro h; omega
   simp only [tagCount, hl, h0, if_false, Int.toNat_natCast, h1]
-  have hloop := taggedLoop_known cfg ids ts ids ts tvs [] [] [] rfl rfl rfl (by simp [wtFields]) hnd hok r
+  have hloop := taggedLoop_known cfg hrec ids ts ids ts tvs [] [] [] rfl rfl rfl (by simp [wtFields]) hnd hok r
   simp only [normFields, List.nil_append] at hloop
   rw [hloop _ (by omega)]
   simp only []
@@ -393,7 +393,7 @@ theorem decode_encode_tagged (cfg : Cfg) (fs : List Ty) (ids : List Int) (ts : L
   omega
 
 /-- the hypotheses are satisfiable: two tagged fields declared in non-ascending id order -/
-example : TaggedOk ⟨true⟩ [5, 0] [.string true false, .int32] [.str [104, 105], .int (-2)] := by
+example : TaggedOk { bounded := true } [5, 0] [.string true false, .int32] [.str [104, 105], .int (-2)] := by
   have h3 := uvarint_length_le10 (0 + 1 + 1 + 1) (by decide)
   refine ⟨⟨by decide, by decide, rfl, rfl, by simp [wt], ?_, rt_all _ _⟩, ⟨by decide, by decide, rfl, rfl, by simp [wt, inRange], ?_, rt_all _ _⟩, trivial⟩
   · simp only [encode, encString, Bool.false_eq_true, Bool.false_and, if_false, if_true, List.length_append, List.length_cons, List.length_nil]
